@@ -115,7 +115,7 @@ func (c *Ctx) Fail(sig, msg string, cas interface{}) {
 			n++
 		}
 	}
-	if n >= 3 || len(c.violations) >= 60 {
+	if n >= 3 || len(c.violations) >= 400 {
 		return
 	}
 	c.violations = append(c.violations, violation{sig, msg, cas})
